@@ -1,45 +1,50 @@
 (* C01 - model cache coherence: an update restores exactly the from-scratch values.
-   Model: Graph/Graph.v (literal readers [value], [outdated], [denote]; operations [step]).
-   For every value type V, function symbols F, meaning interp, every well-formed graph g (any
-   topological order of a DAG of Value / cached / transient nodes), every initial input values ext0
-   and every finite history ops of the public operations
-   (Assign, SetAuto, Update [] = full, Update ts = targeted, Save, Restore). *)
+   Model: Graph/Graph.v (literal readers [value], [outdated], [denote]; operations [step]) and its additive
+   extension Graph/GraphX.v ([xstep]: the same operations plus XRestoreEdited k marks = the public state
+   setter fed with the k-th saved state in which the nodes [marks] were additionally marked outdated).
+   Every theorem is for every value type V, function symbols F, meaning interp, every well-formed graph g
+   (any topological order of a DAG of Value / cached / transient nodes), every initial input values ext0
+   and every finite history xs of
+     Assign, SetAuto, Update [] (full), Update ts (targeted), Save, Restore, XRestoreEdited. *)
 From Coq Require Import List Bool Arith.
 Import ListNotations.
-From LV Require Import Graph.Graph Graph.GraphProofs Graph.GraphMemo Graph.GraphExamples.
-
+From LV Require Import Graph.Graph Graph.GraphProofs Graph.GraphMemo Graph.GraphExamples
+  Graph.GraphX Graph.GraphXProofs Graph.GraphXExamples Graph.CorrC01X.
 
 (* every node that reports itself up to date holds exactly the from-scratch value for the current
    values of the Value nodes *)
 Theorem C01_coherent : forall (V F : Type) (interp : F -> list V -> V) (dflt : V) (g : graph F), wf g ->
-  forall (ext0 : list V) (ops : list (op V)),
-  let rs := run interp dflt g ops (init interp dflt g ext0) in
+  forall (ext0 : list V) (xs : list (xop V)),
+  let rs := xrun interp dflt g xs (init interp dflt g ext0) in
   forall k, k < length g ->
   outdated g (cur rs) k = false ->
   value interp dflt g (cur rs) k = denote interp dflt g (vals (cur rs)) k.
-Proof. exact coherent_reachable. Qed.
+Proof. exact coherent_xreach. Qed.
+Print Assumptions C01_coherent.
 
 (* a full update, and any successful assignment while auto-update is on, leaves no node outdated *)
 Theorem C01_full_update_clean : forall (V F : Type) (interp : F -> list V -> V) (dflt : V) (g : graph F), wf g ->
-  forall (ext0 : list V) (ops : list (op V)),
-  let rs := run interp dflt g ops (init interp dflt g ext0) in
+  forall (ext0 : list V) (xs : list (xop V)),
+  let rs := xrun interp dflt g xs (init interp dflt g ext0) in
   forall o,
   (o = Update [] \/ exists i v, o = Assign i v /\ auto (cur rs) = true) ->
   err (step interp dflt g rs o) = false ->
   forall k, k < length g -> outdated g (cur (st' (step interp dflt g rs o))) k = false.
-Proof. exact full_update_clean_reach. Qed.
+Proof. exact full_update_clean_x. Qed.
+Print Assumptions C01_full_update_clean.
 
 (* a freshly built model has no outdated node *)
 Theorem C01_init_clean : forall (V F : Type) (interp : F -> list V -> V) (dflt : V) (g : graph F), wf g ->
   forall (ext0 : list V) k, k < length g ->
   outdated g (cur (init interp dflt g ext0)) k = false.
 Proof. exact init_clean. Qed.
+Print Assumptions C01_init_clean.
 
 (* a targeted update brings the named nodes and all their ancestors up to date (they then hold the
    from-scratch values); nodes outside this set keep value, flag and ghost; input values are kept *)
 Theorem C01_targeted_update : forall (V F : Type) (interp : F -> list V -> V) (dflt : V) (g : graph F), wf g ->
-  forall (ext0 : list V) (ops : list (op V)),
-  let rs := run interp dflt g ops (init interp dflt g ext0) in
+  forall (ext0 : list V) (xs : list (xop V)),
+  let rs := xrun interp dflt g xs (init interp dflt g ext0) in
   forall ts,
   ts <> [] -> forallb (fun t => t <? length g) ts = true ->
   let s := cur rs in
@@ -49,44 +54,48 @@ Theorem C01_targeted_update : forall (V F : Type) (interp : F -> list V -> V) (d
   /\ (forall k, (forall t, In t ts -> ~ path F g k t) -> same_at V dflt s' s k)
   /\ (forall k n, nth_error g k = Some n -> kd n = KValue -> getv dflt (vals s') k = getv dflt (vals s) k)
   /\ err (step interp dflt g rs (Update ts)) = false.
-Proof. exact targeted_update_reach. Qed.
+Proof. exact targeted_update_x. Qed.
+Print Assumptions C01_targeted_update.
 
 (* [path i k] (k is i or a recursive output of i) is what the executable [reaches] computes *)
 Theorem C01_reaches_is_path : forall (F : Type) (g : graph F), wf g ->
   forall i k, reaches g i k = true <-> path F g i k.
 Proof. exact reaches_path. Qed.
+Print Assumptions C01_reaches_is_path.
 
 (* any operation evaluates a cached node at most once, only if the node was outdated when the sweep
-   started and an ancestor was assigned since it was last computed (ghost mark [touched]: raised for
-   the recursive outputs by an assignment, saved and restored with the state, cleared exactly for
-   the evaluated nodes) *)
+   started and carries the ghost mark [touched] (raised for the recursive outputs by an assignment and
+   for the marked nodes by XRestoreEdited - the caller declared them stale -, saved and restored with the
+   state, cleared exactly for the evaluated nodes) *)
 Theorem C01_evaluate_once_if_needed : forall (V F : Type) (interp : F -> list V -> V) (dflt : V) (g : graph F), wf g ->
-  forall (ext0 : list V) (ops : list (op V)),
-  let rs := run interp dflt g ops (init interp dflt g ext0) in
-  forall o,
-  let out := step interp dflt g rs o in
-  let s0 := pre_sweep V F interp dflt g rs o in
+  forall (ext0 : list V) (xs : list (xop V)),
+  let rs := xrun interp dflt g xs (init interp dflt g ext0) in
+  forall x,
+  let out := xstep interp dflt g rs x in
+  let s0 := xpre_sweep V F interp dflt g rs x in
   NoDup (evald out)
   /\ (forall k, In k (evald out) ->
         cached F g k /\ outdated g s0 k = true /\ getb (touched s0) k = true
         /\ getb (touched (cur (st' out))) k = false /\ outdated g (cur (st' out)) k = false)
-  /\ (err out = false -> forall k, k < length g -> ~ In k (evald out) ->
-        match o with Restore _ => True | _ => getb (touched (cur (st' out))) k = getb (touched s0) k end).
-Proof. exact evaluate_once_if_needed_reach. Qed.
+  /\ (err out = false -> replaces_ghost V x = false -> forall k, k < length g -> ~ In k (evald out) ->
+        getb (touched (cur (st' out))) k = getb (touched s0) k).
+Proof. exact evaluate_once_if_needed_x. Qed.
+Print Assumptions C01_evaluate_once_if_needed.
 
 (* in every reachable state an outdated cached node carries the ghost mark *)
 Theorem C01_outdated_touched : forall (V F : Type) (interp : F -> list V -> V) (dflt : V) (g : graph F), wf g ->
-  forall (ext0 : list V) (ops : list (op V)),
-  let rs := run interp dflt g ops (init interp dflt g ext0) in
-  forall k,
-  cached F g k -> outdated g (cur rs) k = true -> getb (touched (cur rs)) k = true.
-Proof. exact outdated_touched. Qed.
+  forall (ext0 : list V) (xs : list (xop V)) k,
+  let s := cur (xrun interp dflt g xs (init interp dflt g ext0)) in
+  cached F g k -> outdated g s k = true -> getb (touched s) k = true.
+Proof. exact outdated_touched_x. Qed.
+Print Assumptions C01_outdated_touched.
 
 (* an assignment with auto-update off changes no value but the assigned one, evaluates nothing and
-   raises exactly the flags (and ghost marks) of the recursive outputs of the assigned node *)
+   raises exactly the flags of the recursive outputs of the assigned node - also of those that lie
+   behind an already outdated node *)
 Theorem C01_assign_frame : forall (V F : Type) (interp : F -> list V -> V) (dflt : V) (g : graph F), wf g ->
-  forall (ext0 : list V) (ops : list (op V)),
-  let rs := run interp dflt g ops (init interp dflt g ext0) in
+  forall (ext0 : list V) (xs : list (xop V)),
+  let rs := xrun interp dflt g xs (init interp dflt g ext0) in
   forall i v n,
   nth_error g i = Some n -> kd n = KValue -> auto (cur rs) = false ->
   let out := step interp dflt g rs (Assign i v) in
@@ -96,12 +105,13 @@ Theorem C01_assign_frame : forall (V F : Type) (interp : F -> list V -> V) (dflt
   /\ (forall k, k <> i -> getv dflt (vals s') k = getv dflt (vals s) k)
   /\ (forall k, k < length g -> getb (dirty s') k = getb (dirty s) k || (negb (k =? i) && reaches g i k))
   /\ (forall k, k < length g -> ~ path F g i k -> outdated g s' k = outdated g s k).
-Proof. exact assign_frame_reach. Qed.
+Proof. exact assign_frame_x. Qed.
+Print Assumptions C01_assign_frame.
 
 (* restoring the k-th saved state gives back its values, flags and ghost marks, evaluates nothing *)
 Theorem C01_restore : forall (V F : Type) (interp : F -> list V -> V) (dflt : V) (g : graph F), wf g ->
-  forall (ext0 : list V) (ops : list (op V)),
-  let rs := run interp dflt g ops (init interp dflt g ext0) in
+  forall (ext0 : list V) (xs : list (xop V)),
+  let rs := xrun interp dflt g xs (init interp dflt g ext0) in
   forall k sn,
   nth_error (snaps rs) k = Some sn ->
   let out := step interp dflt g rs (Restore k) in
@@ -109,26 +119,41 @@ Theorem C01_restore : forall (V F : Type) (interp : F -> list V -> V) (dflt : V)
   /\ vals (cur (st' out)) = sn_vals sn /\ dirty (cur (st' out)) = sn_flags sn
   /\ touched (cur (st' out)) = sn_touched sn /\ auto (cur (st' out)) = auto (cur rs)
   /\ RInv V F interp dflt g (st' out).
-Proof. exact restore_spec. Qed.
+Proof. exact restore_x. Qed.
+Print Assumptions C01_restore.
+
+(* the state setter on an edited snapshot: saved values, a cached node is outdated iff it was outdated
+   in the snapshot or has been marked, nothing is evaluated, the invariant (hence all of the above) holds
+   afterwards although the outdated set need not be closed under recursive outputs *)
+Theorem C01_restore_edited : forall (V F : Type) (interp : F -> list V -> V) (dflt : V) (g : graph F), wf g ->
+  forall (ext0 : list V) (xs : list (xop V)) k sn marks,
+  let rs := xrun interp dflt g xs (init interp dflt g ext0) in
+  nth_error (snaps rs) k = Some sn ->
+  forallb (fun j => j <? length g) marks = true ->
+  let out := xstep interp dflt g rs (XRestoreEdited k marks) in
+  let s' := cur (st' out) in
+  err out = false /\ evald out = []
+  /\ vals s' = sn_vals sn
+  /\ (forall j, cached F g j -> outdated g s' j = getb (sn_flags sn) j || memb j marks)
+  /\ (forall j, j < length g -> getb (touched s') j = getb (sn_touched sn) j || memb j marks)
+  /\ auto s' = auto (cur rs)
+  /\ RInv V F interp dflt g (st' out).
+Proof. exact restore_edited_spec. Qed.
+Print Assumptions C01_restore_edited.
+
+(* a history of the operations of Graph.v is an extended history *)
+Theorem C01_plain_history : forall (V F : Type) (interp : F -> list V -> V) (dflt : V) (g : graph F),
+  forall (ops : list (op V)) rs, xrun interp dflt g (map XBase ops) rs = run interp dflt g ops rs.
+Proof. exact xrun_base. Qed.
+Print Assumptions C01_plain_history.
 
 (* the table-driven instance that the correspondence shards execute is the literal model *)
 Theorem C01_memo_is_lit : forall (V F : Type) (interp : F -> list V -> V) (dflt : V) (g : graph F), wf g ->
-  forall (ext0 : list V) (ops : list (op V)),
-  let rs := run interp dflt g ops (init interp dflt g ext0) in
-  mrun interp dflt g ops (minit interp dflt g ext0) = rs
-  /\ forall o, mstep interp dflt g rs o = step interp dflt g rs o.
-Proof. exact memo_reach. Qed.
-
-
-Print Assumptions C01_coherent.
-Print Assumptions C01_full_update_clean.
-Print Assumptions C01_init_clean.
-Print Assumptions C01_targeted_update.
-Print Assumptions C01_reaches_is_path.
-Print Assumptions C01_evaluate_once_if_needed.
-Print Assumptions C01_outdated_touched.
-Print Assumptions C01_assign_frame.
-Print Assumptions C01_restore.
+  forall (ext0 : list V) (xs : list (xop V)),
+  let rs := xrun interp dflt g xs (init interp dflt g ext0) in
+  mxrun interp dflt g xs (minit interp dflt g ext0) = rs
+  /\ forall x, mxstep interp dflt g rs x = xstep interp dflt g rs x.
+Proof. exact memo_xreach. Qed.
 Print Assumptions C01_memo_is_lit.
 
 (* non-vacuity: the hypotheses hold of a 7-node diamond with a transient node in the middle, in the
@@ -157,3 +182,17 @@ Example C01_example_targeted_then_full :
   /\ evald (step exi 0 exg (st' (step exi 0 exg (st' out) (Update []))) (Update [])) = [].
 Proof. exact ex_state2. Qed.
 Print Assumptions C01_example_targeted_then_full.
+
+(* edited snapshot: A alone marked outdated (children clean), then its parent x assigned: the children
+   behind the already outdated A are flagged, update(B) evaluates A and B *)
+Example C01_example_edited_dirty_parent :
+  flags_all exg (cur ex_xrs) = [false; false; true; true; false; false; false]
+  /\ coherent nat nat exi 0 exg (cur ex_xrs)
+  /\ (let out := xstep exi 0 exg ex_xrs (XBase (Assign 0 5)) in
+      flags_all exg (cur (st' out)) = [false; false; true; true; true; false; true]
+      /\ evald out = []
+      /\ evald (xstep exi 0 exg (st' out) (XBase (Update [4]))) = [2; 4]
+      /\ flags_all exg (cur (st' (xstep exi 0 exg (st' out) (XBase (Update [4])))))
+         = [false; false; false; false; false; false; true]).
+Proof. exact ex_edited. Qed.
+Print Assumptions C01_example_edited_dirty_parent.
